@@ -15,6 +15,13 @@ class Unsupported(Exception):
     pass
 
 
+class Refork(Exception):
+    """re-execute the current statement in each of the given refined configurations (same program point)"""
+
+    def __init__(self, succs):
+        self.succs = succs
+
+
 class NeedRead(Exception):
     pass
 
@@ -38,6 +45,8 @@ def map_val(v, f):
         return ('tuple', tuple(map_val(x, f) for x in v[1]))
     if t == 'adt':
         return ('adt', v[1], v[2], tuple(map_val(x, f) for x in v[3]))
+    if t == 'sliceiter':
+        return ('sliceiter', map_val(v[1], f))
     return v
 
 
@@ -53,6 +62,8 @@ def collect_pos(v, acc):
     elif t == 'adt':
         for x in v[3]:
             collect_pos(x, acc)
+    elif t == 'sliceiter':
+        collect_pos(v[1], acc)
 
 
 def follow(rv, path):
@@ -153,6 +164,9 @@ class Machine:
                         succs = self.step(cfg)
                     except NeedRead:
                         succs = self.consume(cfg)
+                        break
+                    except Refork as r:
+                        succs = r.succs
                         break
                     self.stats['steps'] += 1
                     if len(succs) == 1 and succs[0][0] is None:
@@ -459,6 +473,8 @@ class Machine:
                 val, ae = r[0], r[1]
                 nf = r[2] if len(r) > 2 else None
                 nl = list(locs)
+                for (ul, uv) in (r[3] if len(r) > 3 else ()):
+                    nl[ul] = uv
                 nl[t['dest']['local']] = val
                 out.append((refine_label(facts, nf), goto(nl, t['target'], 0, at_end=ae, facts=nf)))
             return out
@@ -474,7 +490,10 @@ class Machine:
         if k == 'use':
             return [(operand(rv['op']), ae)]
         if k == 'ref':
-            return [(self.place_get(cfg, locs, rv['place']), ae)]
+            pl = rv['place']
+            if rv.get('mut') and not pl['proj'] and isinstance(locs[pl['local']], tuple) and locs[pl['local']] and locs[pl['local']][0] == 'sliceiter':
+                return [(('ref', pl['local']), ae)]        # the only mutable borrow of a local that is modelled: a slice iterator
+            return [(self.place_get(cfg, locs, pl), ae)]
         if k == 'cast':
             return [(operand(rv['op']), ae)]
         if k == 'discr':
@@ -655,6 +674,27 @@ class Machine:
                     raise Unsupported('alphabet partition does not separate an ascii class')
                 return int(r.pop())
             return [(INT(r), ae, nf) for r, nf in self.split_byte(cfg, v, outcome)]
+        if name.endswith("IntoIterator for &'a [T]>::into_iter") or name.endswith('<impl [T]>::iter'):
+            if args[0] == ('slice',):
+                if self.param_start:
+                    raise Unsupported('iteration over the whole buffer by a scanner started at an arbitrary offset')
+                return [(('sliceiter', ('idx', cfg[1])), ae)]
+        if name.endswith("<std::slice::Iter<'a, T> as std::iter::Iterator>::next") and args and args[0][0] == 'ref':
+            locs = cfg[0][-1][3]
+            it = locs[args[0][1]]
+            if not (isinstance(it, tuple) and it[0] == 'sliceiter'):
+                raise Unsupported('next() on something that is not an iterator over the input')
+            pos = it[1]
+            r = self.cmp_pos(cfg, 'Lt', pos, ('end', 0), lambda l, rr: l < rr)
+            if len(r) > 1:
+                # the bounds test forks on whether the input ends here: fix that first, then run the statement again
+                stack, start_rel, facts, at_end, hyps = cfg
+                raise Refork([(None, (stack, start_rel, facts, a2, hyps)) for (v, a2) in r])
+            (v, a2) = r[0]
+            if not v[1]:
+                return [(('adt', 'Option', 0, ()), a2)]
+            b = self.read_at(cfg, pos)           # may raise NeedRead: the byte is fixed, then the statement runs again
+            return [(('adt', 'Option', 1, (b,)), a2, None, ((args[0][1], ('sliceiter', ('idx', pos[1] + 1))),))]
         if name.endswith('then_some'):
             if self.concrete(args[0]):
                 return [(('adt', 'Option', 1, (args[1],)), ae)]
